@@ -280,6 +280,7 @@ def gen_cases(tier, rng):
             for _ in range(3 if not thorough else 12):
                 kinds = [rng.choice(fam) for _ in range(3)]
                 ops = []
+                sweeps = rng.random() < 0.5
                 for step in range(rng.choice([4, 6, 9])):
                     ops.append(pub_op(rng, famname, fam))
                     ops.append("r1.9")               # consumer 1 is healthy: reads everything at once
@@ -287,6 +288,8 @@ def gen_cases(tier, rng):
                         ops.append("r2.1")           # consumer 2 is slow
                     if rng.random() < 0.15:
                         ops.append(rng.choice(["f0.%d" % rng.randrange(30), "d0"]))
+                    if sweeps and rng.random() < 0.5:
+                        ops.append("s")              # at least one publish+read of consumer 1 between two sweeps
                 yield Case(line([(kinds[0], cap), (kinds[1], cap), (kinds[2], cap)], ops, "healthy1"), cls="multi")
             for _ in range(3 if not thorough else 12):
                 k = rng.choice(fam)
@@ -304,7 +307,7 @@ def gen_cases(tier, rng):
     # rtsp: payload type that is not in the SDP is not written at all
     yield Case(line([("rtp", 2), ("wsrtp", 2)], ["p80620001000000010000000201", "p8060000100000001000000020102", "p80", "p-", "r0.1", "p80e1000100000001000000020304"]), cls="rtp-route")
     # ---- seeded random schedules
-    nrand = 260 if not thorough else 6000
+    nrand = 1500 if not thorough else 12000
     for _ in range(nrand):
         fam = rng.choice(FAMILIES)
         famname = PLAIN[fam[0]]
@@ -328,7 +331,7 @@ def gen_cases(tier, rng):
     # ---- through a real Group
     for cap in (3, 4, 6):
         for subs in (["f", "w", "r", "fw", "wr", "fwr", "wwf", "rrf"] if not thorough else ["f", "w", "r", "ff", "fw", "wr", "fwr", "wwf", "rrf", "wfrw"]):
-            for _ in range(2 if not thorough else 10):
+            for _ in range(6 if not thorough else 30):
                 ops, ts = [], 0
                 for _ in range(rng.randrange(3, 14)):
                     x = rng.random()
@@ -346,13 +349,22 @@ def gen_cases(tier, rng):
                     else:
                         ops.append("s")
                 yield Case("c15.group %d %s %s" % (cap, subs, ",".join(ops)), cls="group")
-    # healthy consumer next to stalled ones, through the Group
-    for subs in ("ff", "ww", "rr", "fwr"):
-        ops = []
-        for k in range(8):
-            ops.append("p9:%d:%s" % (k * 40, tok(b"\x17\x01\0\0\0" + bytes([k] * 20))))
-            ops.append("r0.9")
-        yield Case("c15.group 3 %s %s healthy0" % (subs, ",".join(ops)), cls="group-healthy")
+    # healthy consumer next to stalled ones, through the Group, with and without sweeps
+    for subs in ("ff", "ww", "rr", "fwr", "wfr", "rfw"):
+        for sweeps in (False, True):
+            ops = []
+            for k in range(8):
+                ops.append("p9:%d:%s" % (k * 40, tok(b"\x17\x01\0\0\0" + bytes([k] * 20))))
+                ops.append("r0.9")
+                if sweeps and k % 2 == 1:
+                    ops.append("s")
+            yield Case("c15.group 3 %s %s healthy0" % (subs, ",".join(ops)), cls="group-healthy")
+    # Group sweep: stalled consumers of every kind are disposed by the second sweep, reading ones are kept
+    for subs in ("f", "w", "r", "fwr"):
+        m = lambda k: "p9:%d:%s" % (k * 40, tok(b"\x27\x01\0\0\0" + bytes([k] * 9)))
+        yield Case("c15.group 4 %s s,%s,%s,s,%s,s,%s" % (subs, m(0), m(1), m(2), m(3)), cls="group-sweep")
+        yield Case("c15.group 4 %s %s,s,s,s" % (subs, m(0)), cls="group-sweep")
+        yield Case("c15.group 4 %s s,s" % subs, cls="group-sweep")
 
 
 # ------------------------------------------------------------------ reading cases and outputs
@@ -482,6 +494,25 @@ def oracle_consts(out):
     return (True, "")
 
 
+def rtp_full_stall(ops, i, cap):
+    """rtsp kinds count accepted packets, not written bytes: a consumer that never reads,
+    whose queue (capacity + the one the writer holds) was already full at a sweep, accepts
+    nothing afterwards and must be gone after the next sweep"""
+    pubs, full_at_sweep = 0, False
+    for o in ops:
+        if o[0] in "rf" and int(o[1:].split(".")[0]) == i:
+            return False
+        if o[0] == "p":
+            raw = b"".join(tok_bytes(t) for t in o[1:].split("|"))
+            if len(raw) >= 2 and (raw[1] & 0x7F) in (96, 97):
+                pubs += 1
+        if o[0] == "s":
+            if full_at_sweep:
+                return True
+            full_at_sweep = pubs >= cap + 1
+    return False
+
+
 def sched_facts(ops, ncons):
     """facts about the schedule that the spec-level checks need"""
     touched = [False] * ncons      # f / d aimed at the consumer
@@ -566,7 +597,9 @@ def oracle_run(f, cons):
                     return (False, "consumer %d: %d messages accepted by the queue but %d received after it drained" % (i, want, n))
         if stalled[i] and PLAIN[kind] != "rtp" and x["state"] != "c":
             return (False, "consumer %d completed no write between two sweeps and is still connected" % i)
-        if tag == "healthy1" and i == 1 and "s" not in ops:
+        if PLAIN[kind] == "rtp" and x["state"] != "c" and rtp_full_stall(ops, i, int(cap)):
+            return (False, "consumer %d (rtsp) never reads, its queue was full at a sweep, and it is still connected after the next sweep" % i)
+        if tag == "healthy1" and i == 1:
             if x["state"] != "o" or x["wire"] != b"".join(offered):
                 return (False, "consumer 1 reads everything at once but did not receive every published unit (others stalled)")
     if tag == "twins02":
